@@ -14,7 +14,7 @@ from tools.props import c11_gen as G
 MANIFEST = {
     "level_text": "Coq theorems (Properties/C11.v, no axioms) about a function-by-function Gallina transcription of validator_parser.rs (substring scanners over tokens.to_string(), the character-index/byte-index message slice with its panic, the five-step replace chain) and of schema_builder.rs (render_type, apply_*, escape_js_string): escape_js_string followed by JavaScript string-literal reading is the identity for every byte string; every parsed ValidatorAttributes value is rendered to a chain that reads back as exactly those constraints; fields without #[validate] get the bare schema; a field's chain depends on its own attributes only; one refutation lemma with a computed witness per known-finding class. The model is tied to /repo on every run by differential execution on generated structs (token strings, ValidatorAttributes, chains), and the extracted oracle (declared meta tree vs constraints read back from the emitted chain, exact decimal comparison, JS string decoding) is applied to the implementation's output.",
     "design_ref": "DESIGN.md section 5 C11",
-    "level_note": "Partial: C11_exact (declared tree -> exact chain outside the nine kf classes) is proved for the rendering half for all inputs (C11_render_exact) and for the scanning half only on the plain sub-domain stated in C11_scan_exact_partial; the full statement is kept as C11_exact_full_statement and is checked at run time on every generated case outside the classes. f64 parse/Display is a Section variable in Coq and hand-written OCaml glue in the runner (validated against the harness on every case). Trusted: syn and proc_macro2 printing (token strings are compared on every case), python generators / Rust-source printer (literal values cross-checked against syn::LitStr::value), the Zod reading of method chains.",
+    "level_note": "Partial. Proved for all inputs: C11_escape_roundtrip (every byte string), C11_exact_render_partial (every ValidatorAttributes value with number-text bounds, any number of Option wrappers, on string / number / array-of-string fields: the emitted chain reads back as exactly its constraints), C11_none, C11_not_misattached, nine C11_kf*_refuted witnesses, C11_classes_separate. NOT proved: the scanning half of C11_exact_full_statement (token string -> ValidatorAttributes equals the declared values for every in-domain field outside the nine kf classes); it is kept as a Definition and checked at run time only (every generated case outside the classes must satisfy the extracted oracle; 0 failures tolerated). Arrays with non-string elements and nested arrays are covered by the run-time check only. f64 parse/Display is a Section variable in Coq and hand-written OCaml in the runner (compared with the harness on every case); decimals with more than 15 significant digits and integers beyond 2^53 are class C11-9. Trusted: syn/proc_macro2 printing (token strings compared on every case), python Rust-source printer (literal values cross-checked against syn::LitStr::value), the Zod/ECMAScript reading in Spec/C11Spec.v, ASCII-only trim().",
     "technique": "Rocq/Coq proof over hand-written model + correspondence check (extracted OCaml vs Rust harness and real CLI)"
 }
 
